@@ -911,6 +911,15 @@ def install(eng):
         return DequeV(eng.fresh_seq(a[0], NameBacking(eng.fresh_name('deque')), bv((1 << 64) - 1, 64)), bv(0, 64), bv(0, 64))
     m(VD + r'(new|with_capacity)$', m_dq_new)
 
+    def m_dq_capacity(eng, args, ctx):
+        # the physical capacity of the ring buffer: any value not below the length (std only promises "at least")
+        d = dq(eng, args[0])
+        k = z3.BitVec(eng.fresh_name('deque_capacity'), 64)
+        eng.add_constraint(z3.And(z3.UGE(k, d.len), z3.ULT(k, 1 << 33)))
+        return k
+    m(VD + r'capacity$', m_dq_capacity)
+    m(VD + r'(reserve|reserve_exact|shrink_to_fit)$', lambda e, a, c: UNIT)
+
     def m_dq_iter(eng, args, ctx):
         d = dq(eng, args[0])
         return SliceIter(SliceRef(d.seq, d.head, d.len))
